@@ -328,6 +328,13 @@ def _eval_const(expr: str, env: dict):
         }
         if not isinstance(a, (int, float)) or not isinstance(b, (int, float)):
             raise ValueError("unsupported operand type")
+        if isinstance(a, int) and isinstance(b, int):
+            # Keep constant folding bounded: 9**9**9 or 1 << 10**9 would otherwise
+            # build astronomically large integers at transpile time.
+            if opcls is ast.Pow and b > 0 and a.bit_length() * b > 4096:
+                raise ValueError("constant too large")
+            if opcls is ast.LShift and b > 4096:
+                raise ValueError("constant too large")
         return ops[opcls](a, b)
 
     def _has_non_finite(value) -> bool:
